@@ -44,6 +44,15 @@ SLOT_EXPR = {
 P = 'self.parameters.'
 
 
+def _inside(n, loop_stmt):
+  cur = n.ast
+  while cur is not None:
+    if cur is loop_stmt:
+      return True
+    cur = getattr(cur, '_parent', None)
+  return False
+
+
 def enclosing_conditions(node_ast, stop):
   """[(test expr, branch taken)] of the If statements enclosing node_ast up to `stop` (a loop statement)."""
   out = []
@@ -85,7 +94,7 @@ def r1_r2_r4(repo, rep):
             'for %s in %s' % (tv, itT), 'the treatment loop iterates `%s`, not every treatment group of the size (or the pushed treatment group is not the loop variable)' % itT, f.loc(hT.ast))
   rep.check(itC == 'self.control_group_generator(%s)' % tv and cv == C, 'R1/full-iteration', 'control groups iterate control_group_generator(treatment group)', f.qualname,
             'for %s in %s' % (cv, itC), 'the control loop iterates `%s`, not every control group for the treatment group (or the pushed control group is not the loop variable)' % itC, f.loc(hC.ast))
-  body = g.loop_body_nodes(hS)
+  body = [n for n in g.nodes if n.ast is not None and any(x is hS.ast for x in ast.walk(hS.ast) if x is n.ast) or _inside(n, hS.ast)]
   early = [n for n in body if n.kind in ('break', 'return', 'raisestmt')]
   rep.check(not early, 'R1/full-iteration', 'no break/return/raise inside the enumeration', f.qualname, '; '.join(n.text()[:40] for n in early),
             'the enumeration is left early by %s: the remaining feasible designs are never evaluated' % '; '.join(n.text()[:40] for n in early),
@@ -109,7 +118,7 @@ def r1_r2_r4(repo, rep):
       # every iteration yields (unless the body is itself a loop)
       ys = [n for n in hb if n.kind == 'stmt' and any(isinstance(s, ast.Yield) for s in walk_no_nested(n.ast))]
       if ys and not any(m.kind == 'for' and m is not h for m in hb):
-        p = gctx.g.path_avoiding(h, lambda n: n is h, lambda n: n in ys, lambda a, b, lab: lab != 'exc' and not (a is h and lab == 'exhausted'))
+        p = gctx.g.iteration_skipping(h, ys)
         rep.check(p is None, 'R1/full-iteration', '%s yields a group for every combination' % gname, gf.qualname, 'loop over %s' % norm(h.ast.iter)[:40],
                   '%s drops some combinations (an iteration can finish without yielding)' % gname, gf.loc(h.ast))
   # skip edges: continue statements in the nest
@@ -119,7 +128,7 @@ def r1_r2_r4(repo, rep):
   writer_conditions = []
   for cn in conts:
     n_skips += 1
-    loop_stmt = [h for h in (hC, hT, hS) if cn in g.loop_body_nodes(h)][0].ast
+    loop_stmt = [h for h in (hC, hT, hS) if _inside(cn, h.ast)][0].ast
     conds = enclosing_conditions(cn.ast, loop_stmt)
     reason = classify_skip(repo, rep, view, cn, conds, T, C, tests)
     rep.check(reason is not None, 'R2/skip-audit', 'skip at line %d is for an allowed reason (%s)' % (cn.lineno, reason), f.qualname,
@@ -128,9 +137,8 @@ def r1_r2_r4(repo, rep):
               % ' and '.join(('' if t else 'not ') + norm(rd.expand(g.node_of(i), e)[0])[:80] for e, t, i in conds), f.loc(cn.ast))
   rep.floor('skip edges audited', n_skips, 6)
   # R4: push is reached by every non-skipped iteration of the control loop
-  first = [m for m, lab in g.succ[hC] if lab == 'iter']
-  p = g.path_avoiding(hC, lambda n: n is hC, lambda n: n is P_.node or n.kind == 'continue',
-                      lambda a, b, lab: lab != 'exc' and not (a is hC and lab == 'exhausted')) if first else None
+  conts_c = [n for n in g.nodes if n.kind == 'continue']
+  p = g.iteration_skipping(hC, [P_.node] + conts_c)
   rep.check(p is None, 'R4/push', 'every control group that is not skipped for an audited reason is pushed', f.qualname,
             'path to next iteration without push: ' + (' -> '.join(n.text()[:25] for n, _ in (p or [])[1:-1])),
             'an iteration of the control loop can end without results.push and without an audited skip (the push is guarded by `%s`): feasible designs are silently dropped'
